@@ -138,6 +138,44 @@ def replay_lz(ctx, D, lz, plans_known, plans_raw, dict_rows, start=0):
                 n += 1
     return n
 
+# ---------------------------------------------------------------------------------------------- VLI
+def replay_vli(ctx, D, lz, bufs, start=0):
+    """Vli.tla buffers -> lzma_vli_decode in single-call mode and in multi-call mode under every two-piece cut and byte by byte"""
+    from harness.glue import vli as gvli
+    n = 0
+    seen = set()
+    def viol(key, detail, obj):
+        if key not in seen:
+            seen.add(key); ctx.violation(key, detail, obj)
+    for idx in range(start, len(bufs)):
+        p = bufs[idx]
+        ctx.begin(idx, dict(kind="vli", buf=p['buf']))
+        rng = random.Random(ctx.seed * 977 + idx)
+        data = bytes((0x80 if b['z'] else rng.choice([0x81, 0xFF, 0xA5, 0xC0])) if b['c'] else (0x00 if b['z'] else rng.choice([0x01, 0x7F, 0x25, 0x40]))
+                     for b in p['buf'])
+        shape = "".join(("C" if b['c'] else "E") + ("0" if b['z'] else "") for b in p['buf'])
+        repl = dict(kind="vli", bytes=data.hex(), model=p)
+        value = None
+        if p['single'] == "END":
+            value = gvli.decode(data, 0, 9, len(data))[0]
+        # single-call mode
+        r, used, v = D.vli_decode_calls(data, None)
+        n += 1
+        want = "OK" if p['single'] == "END" else "DATA_ERROR"
+        if r != want or (want == "OK" and (used != p['spos'] or v != value)):
+            viol("vli:single:%s->%s" % (want, r), "lzma_vli_decode(single-call) on %s (%s): %s, %d bytes, value %s; model %s, %d bytes, value %s" % (
+                data.hex(), shape, r, used, v, want, p['spos'], value), repl)
+        # multi-call mode: byte by byte, and cut in two at every place
+        wantm = {"END": "STREAM_END", "run": "OK", "DATA_ERROR": "DATA_ERROR"}[p['multi']]
+        for pieces in [[1] * len(data)] + [[k, len(data) - k] for k in range(1, len(data))] + [[len(data)]]:
+            r, used, v = D.vli_decode_calls(data, pieces)
+            n += 1
+            if r != wantm or (wantm != "DATA_ERROR" and used != p['mpos']) or (wantm == "STREAM_END" and v != value):
+                viol("vli:multi:%s->%s" % (wantm, r), "lzma_vli_decode(multi-call, pieces %s) on %s (%s): %s, %d bytes, value %s; model %s, %d bytes, value %s" % (
+                    pieces[:4], data.hex(), shape, r, used, v, wantm, p['mpos'], value), repl)
+        ctx.case(key=("vli", shape))
+    return n
+
 # ---------------------------------------------------------------------------------------------- LZMA2 layer
 def replay_lzma2(ctx, D, lz, items, start=0):
     """distinct chunk sequences (deduplicated GenLzma2 plans) -> raw LZMA2 decoder, one shot and byte by byte"""
@@ -287,8 +325,21 @@ def replay_xz(ctx, D, lz, groups, cat, start=0, base=0, mt_every=3):
             ret, out, tells, tin = D.decode_stream(data, flags, mt=2)
             compare("stream_decoder_mt", ret, out, tells, tin, g['rets'])
             n += 1
-        # every Block on its own: lzma_block_header_decode + lzma_block_decoder, and the raw filter chain
         names = {nm: (o, l) for nm, o, l in fmap}
+        # the Index field of every Stream on its own (lzma_index_buffer_decode, lzma_index_decoder byte by byte)
+        if fl['concat'] and not (fl['tellNo'] or fl['tellAny'] or fl['ignoreCheck']):
+            for si, want in enumerate(g.get('ialone', [])):
+                a = names.get("s%d.index.indicator" % si); z = names.get("s%d.index.crc32" % si)
+                if want == "skip" or a is None or z is None:
+                    continue
+                ib = data[a[0]:z[0] + z[1]]
+                for bw in (False, True):
+                    r, used = D.index_decode(ib, bytewise=bw)
+                    n += 1
+                    if r != want:
+                        viol("xz:index_decoder%s:ret:%s->%s" % ("/1" if bw else "", want, r), "the Index of Stream %d alone through %s: %s, model %s" % (
+                            si, "lzma_index_decoder (byte by byte)" if bw else "lzma_index_buffer_decode", r, want), dict(repl, index=ib.hex()))
+        # every Block on its own: lzma_block_header_decode + lzma_block_decoder, and the raw filter chain
         done = 0
         for si, s in enumerate(af['streams']):
             for bi, b in enumerate(s['blocks']):
@@ -435,6 +486,8 @@ def main():
         start = job.get("start", 0)
         if ph == "lz":
             n = replay_lz(ctx, D, lz, a["known"], a["raw"], a["rows"], start=start)
+        elif ph == "vli":
+            n = replay_vli(ctx, D, lz, a["bufs"], start=start)
         elif ph == "lzma2":
             n = replay_lzma2(ctx, D, lz, a["items"], start=start)
         elif ph == "xz":
